@@ -23,6 +23,7 @@ RULE = (
     "raise no LiquidError; warn likewise; strict error => warn recorded >= 1 LiquidWarning; #error() hook calls in warn == "
     "#warnings; #error() calls in lax == #warnings in warn; strict clean => lax/warn output identical and 0 warnings. "
     "Non-trivial = lexer-accepted and (strict raised, or output non-empty)."
+    " Rounds 5-6 added enumerated families: lived-in environment twin per configuration; nests around the nesting limit; resource limits and endless partials in tolerant environments."
 )
 REQUIRED = [
     ("liquid/environment.py", "Environment.error"),
